@@ -59,8 +59,29 @@ class TlcResult:
         self.prints = []       # other <<"TAG", ...>> tuples printed by the spec
 
 
-def tlc(module, cfg, workers=None, emit=True, simulate=None, timeout=1800, coverage=True,
-        env=None, keep_dir=None, depth_first=False, extra=(), defs=None):
+def tlc(module, cfg, **kw):
+    """_tlc_once, retried when the JVM / TLC itself fails (not when it reports a verdict): a crashed run decides nothing, a
+    completed run of the same deterministic model is the same whichever attempt produced it.  Every failed attempt is logged
+    to evidence/machinery.log so that a recurring cause can be diagnosed."""
+    last = None
+    for attempt in range(3):
+        try:
+            return _tlc_once(module, cfg, **kw)
+        except Machinery as ex:
+            if 'timed out' in str(ex):
+                raise
+            last = ex
+            try:
+                os.makedirs(os.path.join(VERIF, 'evidence'), exist_ok=True)
+                with open(os.path.join(VERIF, 'evidence', 'machinery.log'), 'a') as f:
+                    f.write('---- %s attempt %d of %s\n%s\n' % (time.strftime('%Y-%m-%d %H:%M:%S'), attempt + 1, module, str(ex)[-6000:]))
+            except OSError:
+                pass
+    raise last
+
+
+def _tlc_once(module, cfg, workers=None, emit=True, simulate=None, timeout=1800, coverage=True,
+              env=None, keep_dir=None, depth_first=False, extra=(), defs=None):
     """Run TLC on spec/<module>.tla with config text or file `cfg`.
 
     emit=True forces -workers 1 so that PrintT lines do not interleave.
@@ -241,6 +262,15 @@ class Ctx:
     # -- model side ------------------------------------------------------------------------
     def tlc(self, module, cfg, name=None, must_hold=True, require_actions=(), count=True, **kw):
         r = tlc(module, cfg, **kw)
+        if must_hold and r.violation and not kw.get('simulate') and kw.get('workers') != 1 and kw.get('emit') is False:
+            # a verdict of a multi-worker run that a single-worker run of the same deterministic model does not reproduce is a
+            # tool fault, not a verdict: confirm before failing (the first report is logged for diagnosis)
+            try:
+                with open(os.path.join(VERIF, 'evidence', 'machinery.log'), 'a') as f:
+                    f.write('---- %s unconfirmed in-model violation in %s, re-running with one worker\n%s\n' % (time.strftime('%Y-%m-%d %H:%M:%S'), name or module, r.violation[-6000:]))
+            except OSError:
+                pass
+            r = tlc(module, cfg, **dict(kw, workers=1))
         if count:
             self.states += r.distinct
             self.transitions += r.generated
@@ -388,6 +418,11 @@ def main_check(prop, run, argv):
         return ctx.finish()
     except Machinery as e:
         print('MACHINERY-FAILURE property=%s: %s' % (prop, e))
+        try:
+            with open(os.path.join(VERIF, 'evidence', 'machinery.log'), 'a') as f:
+                f.write('==== %s %s exit 2\n%s\n' % (time.strftime('%Y-%m-%d %H:%M:%S'), prop, str(e)[-6000:]))
+        except OSError:
+            pass
         return 2
     except Exception:
         print('MACHINERY-FAILURE property=%s: unexpected exception' % prop)
